@@ -419,8 +419,7 @@ fn trusted_line(flags: ConsensusFlags, program: &[u8], refs: &[Vec<u8>]) -> Stri
 }
 
 /// C09 stated on the implementation alone
-fn oracle09(flags: ConsensusFlags, max_cost: u64, program: &[u8], refs: &[Vec<u8>], lenient: bool) -> String {
-    let mut pending: Vec<String> = vec![];
+fn oracle09(flags: ConsensusFlags, max_cost: u64, program: &[u8], refs: &[Vec<u8>]) -> String {
     let (a, conds) = match run_block_generator2(program, refs, max_cost, flags, &Signature::default(), None, &TEST_CONSTANTS) {
         Ok(x) => x,
         Err(_) => return "OK rejected".into(),
@@ -458,13 +457,6 @@ fn oracle09(flags: ConsensusFlags, max_cost: u64, program: &[u8], refs: &[Vec<u8
             } else {
                 for (w, g) in want.iter().zip(got.iter()) {
                     if w.1 != g.1 {
-                        if lenient && w.1 == "N" && g.1 == "S:-" {
-                            // candidate finding F-C09-1: empty-atom first memo
-                            if pending.is_empty() || pending[0] != "empty-memo-hint" {
-                                pending.insert(0, "empty-memo-hint".into());
-                            }
-                            continue;
-                        }
                         fails.push(format!("hint-differs:validated={}:helper={}", w.1, g.1));
                         break;
                     }
@@ -546,15 +538,11 @@ fn oracle09(flags: ConsensusFlags, max_cost: u64, program: &[u8], refs: &[Vec<u8
             Ok(out) => {
                 // expected: the i-th spend tuple of the output
                 let mut tuples = vec![];
-                let mut has_extras = false;
                 if let Some((mut iter, _)) = a.next(out) {
                     while let Some((spend, rest)) = a.next(iter) {
                         iter = rest;
-                        if let Some([_, p, _, s, ex]) = extract_n::<5>(&a, spend) {
+                        if let Some([_, p, _, s, _]) = extract_n::<5>(&a, spend) {
                             tuples.push((p, s));
-                            if !(matches!(a.sexp(ex), SExp::Atom) && a.atom_len(ex) == 0) {
-                                has_extras = true;
-                            }
                         }
                     }
                 }
@@ -562,11 +550,6 @@ fn oracle09(flags: ConsensusFlags, max_cost: u64, program: &[u8], refs: &[Vec<u8
                     let c = Coin::new(s.parent_id, s.puzzle_hash, s.coin_amount);
                     match get_puzzle_and_solution_for_coin(&a, out, &c) {
                         Err(_) => {
-                            if lenient && has_extras {
-                                // candidate finding F-C09-2: spend-level extras make the lookup reject
-                                pending.push("lookup-with-spend-extras".into());
-                                break;
-                            }
                             fails.push(format!("lookup-fails:{}", i));
                             break;
                         }
@@ -582,7 +565,7 @@ fn oracle09(flags: ConsensusFlags, max_cost: u64, program: &[u8], refs: &[Vec<u8
         }
     }
     if fails.is_empty() {
-        format!("OK accepted spends={}{}", o.spends.len(), if pending.is_empty() { "".to_string() } else { format!(" pending-class={}", pending.join(",")) })
+        format!("OK accepted spends={}", o.spends.len())
     } else {
         format!("FAIL {}", fails.join(" "))
     }
@@ -629,8 +612,8 @@ fn run(name: &str, args: &[String]) -> Option<String> {
         }
         "gen.oracle07" => {
             // FLAGS MAXCOST PROGRAM REFS [lenient]: the property on the implementation alone.
-            // `lenient` sets aside the two divergence classes reported as candidate findings
-            // (SIMPLE_GENERATOR with block references; INTERNED_GENERATOR storage cost).
+            // `lenient` sets aside the divergence class of finding F-C07-2 (INTERNED_GENERATOR storage cost);
+            // used only while that finding is not listed in KNOWN_FINDINGS.jsonl.
             let flags = flags_of(&args[0]);
             let max_cost = dec(&args[1]);
             let program = hx(&args[2]);
@@ -639,7 +622,6 @@ fn run(name: &str, args: &[String]) -> Option<String> {
             let r1 = run_legacy(flags, max_cost, &program, &refs);
             let r2 = run_native(flags, max_cost, &program, &refs);
             let interned = flags.contains(ConsensusFlags::INTERNED_GENERATOR);
-            let simple_refs = flags.contains(ConsensusFlags::SIMPLE_GENERATOR) && !refs.is_empty();
             Some(match (&r1, &r2) {
                 (Err(_), Err(_)) => "OK both-reject".into(),
                 (Ok(o1), Ok(o2)) => {
@@ -665,9 +647,7 @@ fn run(name: &str, args: &[String]) -> Option<String> {
                     }
                 }
                 (Ok(_), Err(e)) => {
-                    if lenient && simple_refs && e.error_code() == ErrorCode::TooManyGeneratorRefs {
-                        "OK pending-class=simple-generator-with-refs".into()
-                    } else if lenient && interned && is_resource(e) {
+                    if lenient && interned && is_resource(e) {
                         // the larger storage cost of the interned mode exhausts the limit first
                         "OK pending-class=interned-storage-cost".into()
                     } else {
@@ -718,8 +698,7 @@ fn run(name: &str, args: &[String]) -> Option<String> {
             let max_cost = dec(&args[1]);
             let program = hx(&args[2]);
             let refs = parse_refs(&args[3]);
-            let lenient = args.len() > 4 && args[4] == "lenient";
-            Some(oracle09(flags, max_cost, &program, &refs, lenient))
+            Some(oracle09(flags, max_cost, &program, &refs))
         }
         "gen.consts" => {
             let k = &TEST_CONSTANTS;
